@@ -40,7 +40,7 @@ TOL = 1e-8
 
 
 def classes(tier):
-    return ["builtin", "custom", "symbolic", "replace", "k1_targets", "pairs_exh"]
+    return ["builtin", "custom", "custom_structured", "siblings", "symbolic", "replace", "k1_targets", "pairs_exh"]
 
 
 # ----------------------------------------------------------------------------- reference
@@ -465,6 +465,49 @@ def run_case(ctx):
         chain = _rand_chain(rng, nq, max(max_width, nq), max_len, all_mods, dense=True)
         ctx.describe(f"custom{nq}q#{ctx.index}.{_chain_str(chain)}", _nontrivial(chain))
         _run_chain(ctx, g, "custom", chain)
+        return
+    if cls == "custom_structured":
+        # custom gates whose matrices are diagonal / complex symmetric / hermitian / real orthogonal /
+        # phase-permutation: any shortcut keyed on such structure (e.g. "symmetric => self-adjoint") shows here
+        nq = rng.choice([1, 1, 2])
+        d, flavor = GC.structured_custom_def(rng, nprng, nq, f"Struct{ctx.index}")
+        g = d()
+        cheap = flavor in ("diag", "phaseperm")
+        chain = _rand_chain(rng, nq, max_width, max_len, all_mods, cheap=cheap, dense=not cheap,
+                            focus=(("dagger", rng.choice(all_mods[:3])) if rng.random() < 0.5 else None))
+        if not any(m[0] == "dagger" for m in chain):
+            chain.insert(rng.randint(0, len(chain)), ("dagger",))
+        ctx.describe(f"custom-{flavor}{nq}q#{ctx.index}.{_chain_str(chain)}", _nontrivial(chain))
+        ctx.mon.note("custom-flavor:" + flavor)
+        _run_chain(ctx, g, "custom", chain)
+        return
+    if cls == "siblings":
+        # two DIFFERENT gates that share name-level identity once wrapped (every ControlledGate is called
+        # "Control", every Exponential "Exponential") and have equal parameters, pushed through the same chain
+        # one after the other in the same process: anything memoised per (name, params) goes stale here
+        from orquestra.quantum import circuits as C
+
+        groups = [["X", "Y", "Z", "H", "S", "SX", "I"], ["CNOT", "CZ", "SWAP", "ISWAP"]]
+        pgroups = [["RX", "RY", "PHASE", "RH", "GPi", "GPi2"], ["XX", "YY", "ZZ", "XY", "CPHASE"]]
+        if rng.random() < 0.5:
+            a, b = rng.sample(rng.choice(groups), 2)
+            ga, gb = getattr(C, a), getattr(C, b)
+            da, db = a, b
+        else:
+            a, b = rng.sample(rng.choice(pgroups), 2)
+            ang = round(rng.uniform(-3, 3), 4)
+            ga, gb = getattr(C, a)(ang), getattr(C, b)(ang)
+            da, db = f"{a}({ang})", f"{b}({ang})"
+        nq = ga.num_qubits
+        wrappers = [("controlled", rng.randint(1, 2))]
+        if nq == 1 and rng.random() < 0.7:
+            wrappers.append(("exp",))
+        if rng.random() < 0.4:
+            wrappers.insert(rng.randint(0, len(wrappers)), rng.choice([("dagger",), ("power_int", 2), ("power_int", -1)]))
+        chain = [m for i, m in enumerate(wrappers) if _may_append(wrappers[:i], m, nq, False)]
+        ctx.describe(f"siblings {da} | {db} | {da} through .{_chain_str(chain)}", len(chain) >= 2)
+        for g, d in ((ga, da), (gb, db), (ga, da)):
+            _run_chain(ctx, g, d, chain)
         return
     if cls == "symbolic":
         syms = [sympy.Symbol(s) for s in rng.sample(GC.SYMBOL_POOL, 3)]
